@@ -160,3 +160,108 @@ induction cig as [|[op len] cig IH]; intros i vs rp qp A o B Hpos Hs Hlow Hin He
       -- apply Hinb. lia.
       -- intros y Hy. apply in_or_app. now right.
 Qed.
+
+(* --- the flank hypotheses of realign_correct imply that the variant is reached at a match operation *)
+Lemma ref_units_in_N l : In OpN l -> 0 < ref_units l.
+Proof.
+induction l as [|o l IH]; [contradiction|]. intros [->|H]; cbn [ref_units fold_right ref_unit]; [lia|].
+fold (ref_units l). specialize (IH H). lia.
+Qed.
+
+Lemma forallb_in {A} (f : A -> bool) l x : forallb f l = true -> In x l -> f x = true.
+Proof. rewrite forallb_forall. auto. Qed.
+
+Lemma reach_ok_flank R pre LM : forallb is_match LM = true -> (LM <> [] \/ window_end R (rev pre)) -> reach_ok (pre ++ LM).
+Proof.
+intros HLM Hc A1 A2 HA.
+apply app_eq_app in HA as [l [[Hpre Hl]|[HA1 Hl]]].
+- destruct l as [|x l'].
+  + cbn [app] in Hl. assert (Hm : is_match OpI = true) by (apply (forallb_in _ LM); [exact HLM|rewrite <- Hl; now left]). discriminate.
+  + cbn [app] in Hl. injection Hl as <- ->. rewrite ref_units_app.
+    destruct (units_match LM HLM) as [HLr _]. rewrite HLr.
+    destruct Hc as [Hne|Hw]; [destruct LM; [contradiction|cbn [length]; lia]|].
+    rewrite Hpre in Hw. rewrite rev_app_distr in Hw. cbn [rev] in Hw. rewrite <- app_assoc in Hw. cbn [app] in Hw.
+    destruct Hw as [Hclip|(_ & c1 & c2 & Heq & Hclip)].
+    * rewrite forallb_app in Hclip. apply andb_prop in Hclip as [_ Hclip]. cbn in Hclip. discriminate.
+    * apply app_eq_app in Heq as [l [[H1 H2]|[H1 H2]]].
+      -- destruct l as [|y l2]; [cbn in H2; discriminate|]. cbn [app] in H2. injection H2 as <- _.
+         assert (HN : In OpN l') by (apply in_rev; rewrite H1; apply in_or_app; right; now left).
+         pose proof (ref_units_in_N l' HN). lia.
+      -- destruct l as [|y l2]; [cbn in H2; discriminate|]. cbn [app] in H2. injection H2 as <- _.
+         assert (Hm : is_clip OpI = true) by (apply (forallb_in _ c1); [exact Hclip|rewrite H1; apply in_or_app; right; now left]).
+         discriminate.
+- assert (Hm : is_match OpI = true) by (apply (forallb_in _ LM); [exact HLM|rewrite Hl; apply in_or_app; right; now left]).
+  discriminate.
+Qed.
+
+Lemma index_from_in {A} (l : list A) : forall k n x, nth_error l n = Some x -> In (k + n, x) (index_from k l).
+Proof.
+induction l as [|y l IH]; intros k [|n] x H; try discriminate.
+- cbn in H. injection H as ->. rewrite Nat.add_0_r. now left.
+- cbn [nth_error] in H. cbn [index_from]. right. replace (k + S n) with (S k + n) by lia. now apply IH.
+Qed.
+
+Lemma realign_all_in R reference overhang variants cig query : forall ys ds j i c qp v a,
+  realign_all R reference overhang variants cig query ys = Some ds -> In (j, i, c, qp) ys ->
+  nth_error variants j = Some v -> realign R reference overhang v cig query i c qp = Some (Some a) ->
+  In (j, a, 30) ds.
+Proof.
+induction ys as [|[[[j' i'] c'] qp'] ys IH]; intros ds j i c qp v a H Hin Hn Hr; [contradiction|].
+cbn [realign_all] in H.
+destruct (nth_error variants j') as [v'|] eqn:En'; [|discriminate].
+destruct (realign R reference overhang v' cig query i' c' qp') as [r|] eqn:Er'; [|discriminate].
+destruct (realign_all R reference overhang variants cig query ys) as [rest|] eqn:Erest; [|discriminate].
+injection H as <-. destruct Hin as [Heq|Hin].
+- injection Heq as -> -> -> ->. rewrite Hn in En'. injection En' as <-. rewrite Hr in Er'. injection Er' as <-. now left.
+- specialize (IH rest j i c qp v a eq_refl Hin Hn Hr). destruct r; [now right|exact IH].
+Qed.
+
+(* With a reference: the carried allele of a covered, well separated variant is reported by the alignment *)
+Theorem detect_by_alignment_finds :
+  forall (R : rules) (reference query : list Z) (overhang : nat) (variants : list variant) (start : nat) (cig : cigar)
+         (j : nat) (v : variant) (pre LM V RM post : list cop) (r1 WL WR r2 q1 q2 : list Z) (carried : nat)
+         (ds : list det),
+  0 < overhang -> positive_lengths cig ->
+  sorted_strict (index_from 0 variants) -> nth_error variants j = Some v ->
+  expand cig = pre ++ LM ++ V ++ RM ++ post ->
+  vpos v = start + ref_units (pre ++ LM) ->
+  forallb is_match LM = true -> forallb is_match RM = true -> forallb is_aligned V = true ->
+  carried <= 1 ->
+  0 < length (vref v) -> ref_units V = length (vref v) -> query_units V = length (get_allele v carried) ->
+  (overhang <= length LM \/ window_end R (rev pre)) ->
+  (overhang <= length RM \/ window_end R post) ->
+  reference = r1 ++ WL ++ vref v ++ WR ++ r2 -> vpos v = length r1 + length WL ->
+  query = q1 ++ WL ++ get_allele v carried ++ WR ++ q2 ->
+  length WL = length LM -> length WR = length RM -> length q1 = query_units pre ->
+  vref v <> valt v -> is_symbolic v = false ->
+  detect_by_alignment R reference overhang variants start cig query = Some ds ->
+  In (j, carried, 30) ds.
+Proof.
+intros R reference query overhang variants start cig j v pre LM V RM post r1 WL WR r2 q1 q2 carried ds
+       Hov Hpos Hs Hn He Hp HLM HRM HV Hc Hrl HVr HVq Hle Hre Href Hvp Hq HWL HWR Hq1 Hd Hsym Hdet.
+destruct V as [|o V']; [cbn in HVr; lia|].
+cbn [forallb] in HV. apply andb_prop in HV as [Ho HV'].
+assert (He' : expand cig = (pre ++ LM) ++ o :: (V' ++ RM ++ post)) by (rewrite He, <- app_assoc; reflexivity).
+assert (Hreach : reach_ok (pre ++ LM)).
+{ apply (reach_ok_flank R); [exact HLM|]. destruct Hle as [H|H]; [left; destruct LM; [cbn in H; lia|discriminate]|now right]. }
+assert (Hne : cig <> []).
+{ intros ->. cbn in He'. destruct (pre ++ LM); discriminate. }
+assert (Hdet' : realign_all R reference overhang variants cig query (iterate_cigar (index_from 0 variants) start cig) = Some ds).
+{ unfold detect_by_alignment in Hdet. destruct cig; [contradiction|exact Hdet]. }
+clear Hdet. rename Hdet' into Hdet.
+unfold iterate_cigar, skip_lt in Hdet.
+pose proof (sorted_strict_weak _ Hs) as Hw.
+destruct (span_lt (index_from 0 variants) start) as [a rest] eqn:Esp. cbn [snd] in Hdet.
+assert (Hinv : In (j, v) (index_from 0 variants)) by (apply (index_from_in variants 0 j v Hn)).
+destruct (span_lt_in _ _ Hw _ _ _ Esp Hinv) as [_ Hinr]. cbn [snd] in Hinr.
+destruct (span_lt_spec _ _ _ _ Esp) as (Hvs & _ & Hb). destruct (Hb Hw) as [Hrest _].
+assert (Hsr : sorted_strict rest) by (rewrite Hvs in Hs; eapply sorted_strict_suffix; eauto).
+destruct (iter_cigar_complete j v cig 0 rest start 0 (pre ++ LM) o (V' ++ RM ++ post) Hpos Hsr Hrest)
+  as (i' & c & op & len & Hy & Hnth & Hcl & Hu); auto; [apply Hinr; lia|].
+cbn [Nat.add] in Hy.
+eapply realign_all_in; eauto.
+eapply realign_correct with (pre := pre) (LM := LM) (V := o :: V') (RM := RM) (post := post); eauto.
+- rewrite Hu, He'. apply firstn_middle.
+- rewrite Hu, He'. rewrite skipn_app, Nat.sub_diag, skipn_all. reflexivity.
+- cbn [forallb]. now rewrite Ho, HV'.
+Qed.
